@@ -261,3 +261,21 @@ pub fn decrypt_eq(key: &[u8], block: &State) -> State {
     let dw = eq_inv_keys_with(&rk, nk + 6, inv_mix_columns);
     eq_inv_cipher_with(&dw, nk + 6, block, inv_round_core, inv_last_core)
 }
+
+// ---- added for the software-backend wiring queries (family F); existing items above are unchanged
+/// InvCipher (5.3), straight form, with the inverse S-box AND InvMixColumns as parameters; statement for statement the
+/// same as `inv_cipher_sb_with` (which is this function with `imc = inv_mix_columns`).
+pub fn inv_cipher_with<S: Fn(u8) -> u8, M: Fn(&State) -> State>(rk: &[State; MAX_RK], nr: usize, block: &State, isb: S, imc: M) -> State {
+    let mut s = xor(block, &rk[nr]);
+    let mut r = nr - 1;
+    while r >= 1 {
+        s = sub_bytes_with(&inv_shift_rows(&s), &isb);
+        s = imc(&xor(&s, &rk[r]));
+        r -= 1;
+    }
+    xor(&sub_bytes_with(&inv_shift_rows(&s), &isb), &rk[0])
+}
+/// Cipher (5.1) with the S-box AND MixColumns as parameters (`cipher_sb_with` is this function with `mc = mix_columns`).
+pub fn cipher_sb_mc_with<S: Fn(u8) -> u8, M: Fn(&State) -> State>(rk: &[State; MAX_RK], nr: usize, block: &State, sb: S, mc: M) -> State {
+    cipher_with(rk, nr, block, |s| mc(&shift_rows(&sub_bytes_with(s, &sb))), |s| shift_rows(&sub_bytes_with(s, &sb)))
+}
